@@ -210,8 +210,19 @@ def gen_cases(rng, tier):
         pls, simple = placements(meta)
         if not pls:
             continue
-        top = [p for p in pls if p[0] != "G"]
         grp = [p for p in pls if p[0] == "G"]
+        byk = {k: [p for p in pls if p[0] == k] for k in "HTB"}
+
+        class Top(list):
+            """Message-level placements; rng.choice over it is balanced between header, trailer and
+            body pairs (the schema has 2 + 1 header/trailer pairs against dozens of body pairs)."""
+            def __getitem__(self, i):
+                if isinstance(i, slice):
+                    return list.__getitem__(self, i)
+                k = "HTBB"[i % 4]
+                pool = byk[k] or list(self)
+                return pool[(i // 4) % len(pool)]
+        top = Top(byk["H"] + byk["T"] + byk["B"])
         main = schema == default
         scale = (3 if thorough else 1) if main else 1
 
@@ -235,7 +246,7 @@ def gen_cases(rng, tier):
         # 2. each of the 256 byte values alone (message-level and group placements alternate)
         if main:
             for b in range(256):
-                for rep in range(scale):
+                for rep in range(scale + 1):
                     pl = rng.choice(top if (b + rep) % 3 else (grp or top))
                     if b == 0:
                         cs.append(W(pl, b"\x00", "byte"))
@@ -245,7 +256,7 @@ def gen_cases(rng, tier):
                         cs.append(P(pl, bytes([b]), "byte"))
         # 3. lengths 0, 1, 2 with the interesting bytes; long contents; edge texts
         inter = (1, 61, 0xff, 48, 0x7f)
-        for k in range(60 * scale if main else 15):
+        for k in range(100 * scale if main else 15):
             pl = rng.choice(top if k % 2 else (grp or top))
             a, b2 = rng.choice(inter), rng.choice(inter)
             c = bytes([a, b2])
@@ -253,7 +264,7 @@ def gen_cases(rng, tier):
                 c = group_safe(rng, 6)
             cs.append(P(pl, c, "two"))
             cs.append(P(pl, content_for(rng, pl[0], "edge"), "edge"))
-        for k in range(40 * scale if main else 10):
+        for k in range(60 * scale if main else 10):
             pl = rng.choice(top if k % 3 else (grp or top))
             cs.append(P(pl, content_for(rng, pl[0], "long"), "long"))
         for pl in top[:6]:
